@@ -33,15 +33,32 @@ type mxDecl struct {
 	Val   int           `( "=" @( "-"? Int )`
 	Ratio float32       `      | "~" @( Float | Int ) )?`
 	Body  []lexer.Token `( "{" @( Ident | Int | "," )* "}" )?`
+	Init  mxInit        `( "init" @@ )?`
 	Tags  []string      `"<" ( @Ident* )! ">"`
 	End   lexer.Token   `@";"`
 }
+
+// mxInit is a union whose members are registered as a value (mxInitNum{}) and as a pointer
+// (&mxInitList{}, whose marker method has a pointer receiver).
+type mxInit interface{ mxinit() }
+
+type mxInitNum struct {
+	N int `@Int`
+}
+
+func (mxInitNum) mxinit() {}
+
+type mxInitList struct {
+	Items []string `"[" @Ident* "]"`
+}
+
+func (*mxInitList) mxinit() {}
 
 var worldMisc = &world{
 	name: "misc", lexerKind: "text/scanner", junk: " } }",
 	build: func(o buildOpts) PH {
 		opts := applyCommon(o, nil, nil)
-		opts = append(opts, participle.CaseInsensitive("Ident"))
+		opts = append(opts, participle.CaseInsensitive("Ident"), participle.Union[mxInit](mxInitNum{}, &mxInitList{}))
 		return mustPH[mxFile](nil, opts...)
 	},
 	docs: []doc{
@@ -51,6 +68,7 @@ var worldMisc = &world{
 		flatDoc("flat-body", "var a { x", ", y", " } <t>;"),
 		flatDoc("flat-tags", "var a <t", " t", ">;"),
 		{name: "empty", valid: true, text: ""},
+		{name: "init", valid: true, text: "var a init 5 <t>;\nvar b init [x y z] <t>;\nvar c init [] <t>;"},
 		{name: "dims", valid: true, text: "var a (1, 2, 300) <t>;\nconst b [2] (7) = 1 <t>;"},
 		{name: "dims-overflow", valid: false, text: "var a (1, 2, 70000) <t>;"},
 		{name: "size-overflow", valid: false, text: "var a [300] <t>;"},
